@@ -22,15 +22,17 @@ import (
 // and body verbatim.
 
 type loopback struct {
-	h        http.Handler
-	requests int
-	lastURI  string
+	h           http.Handler
+	requests    int
+	lastURI     string
+	lastHeaders http.Header
 }
 
 func (l *loopback) RoundTrip(req *http.Request) (*http.Response, error) {
 	l.requests++
 	target := req.URL.RequestURI()
 	l.lastURI = target
+	l.lastHeaders = req.Header
 	var body []byte
 	if req.Body != nil {
 		body, _ = io.ReadAll(req.Body)
